@@ -14,7 +14,8 @@ LEVEL = "exploration"
 RULE = (
     "derive: seeds of 16..64 bytes, mainnet/testnet, paths of depth 0..8 (quick mostly <= 4) over indices "
     "{0,1,2^31-1,2^31,2^31+1,2^32-1} | random; to_master_key/root_serialized_extended_key/derive_from_path/get_xpub strings "
-    "compared with an independent BIP32 (Jacobian-ladder curve code, long-division Base58). commute: (a) a non-root parent "
+    "compared with an independent BIP32 (Jacobian-ladder curve code, long-division Base58); key material is raw Hypothesis bytes "
+    "or SHA-512-diffused draws so keys/chain codes are full width. commute: (a) a non-root parent "
     "(reference-derived below 0..2 arbitrary steps) and a non-hardened suffix of 1..3 steps: derive_from_path('M/..', xpub) vs "
     "get_xpub(derive_from_path('m/..', xprv)) vs reference, or the suffix with one hardened step which must raise; (b) function "
     "level CKDpub(N(k,c),i) vs N(CKDpriv(k,c,i)) for boundary scalars k, chain codes and indices, CKDpub(i>=2^31) must raise. "
